@@ -4,7 +4,7 @@ import facts
 import fieldflow as ff
 import mustflow
 import mustpass as mp
-from ruleutil import find_fn, fields_read, run_mustflow, raw_amount_ops, stmt_reading_field
+from ruleutil import find_fn, fields_read, run_mustflow, raw_amount_ops, stmt_reading_field, direct_call_of
 
 TB = "builders::tx_builder::TransactionBuilder"
 
@@ -167,6 +167,86 @@ def check(rep, F, tier, replay=None):
         rep.inst("A-noraw")
         for sub, op, ty, loc in raw_amount_ops(F, fid):
             rep.violation("A-noraw", "%s|%s|%s" % (F.key(sub), op, ty), "%s uses the raw operator %s on %s at %s: an overflow would wrap (release) or panic (debug) instead of failing the build explicitly" % (F.key(sub), op, ty, facts.loc_str(loc, F.fns[sub])), {})
+    # ---- FEE-pair: a fee increment for a change output is always followed by the creation of an output ---------------
+    rep.rule("FEE-pair", "in add_change_if_needed every `fee += fee_for_output(o)` is followed, on every path to a success return, by the addition of an output: the fee never pays for an output that is not created")
+    fid = find_fn(rep, F, "TransactionBuilder::add_change_if_needed_with_optional_script_and_datum")
+    if fid:
+        fn = F.fns[fid]
+        org = ff.Origins(F, fid)
+        outs = {c.bb for c in F.calls(fid) if (c.to or "").endswith("TransactionBuilder::add_output") or (c.to or "").endswith("TransactionOutputs::add")}
+        succ_blocks = {b for b, k, l in mp.success_stores(F, fid)}
+        n_pair = 0
+        for c in F.calls(fid):
+            if not (c.to or "").endswith("BigNum::checked_add"):
+                continue
+            t = fn["bbs"][c.bb]["t"]
+            if len(t[3]) < 2:
+                continue
+
+            def ref_target(op):
+                if op[0] not in ("c", "m"):
+                    return None
+                cur = op[1]
+                for _ in range(4):
+                    nxt = None
+                    base = cur[:-2] if cur.endswith("|*") else cur
+                    for bb2 in fn["bbs"]:
+                        for st2 in bb2["st"]:
+                            if st2[1] == "=" and st2[2] == base and st2[3][0] == "ref":
+                                nxt = st2[3][2]
+                    if nxt is None:
+                        return cur if cur != op[1] else None
+                    cur = nxt
+                    if "|" not in cur:
+                        # a plain local: done unless it is itself a reference temp
+                        if not any(st2[1] == "=" and st2[2] == cur and st2[3][0] == "ref" for bb2 in fn["bbs"] for st2 in bb2["st"]):
+                            return cur
+                return cur
+
+            def local_from_call(local):
+                """the call whose `?`-unwrapped result is stored (once) into `local`"""
+                hits = []
+                for bb2 in fn["bbs"]:
+                    for st2 in bb2["st"]:
+                        if st2[1] == "=" and st2[2] == local and st2[3][0] == "use":
+                            hits.append(direct_call_of(fn, st2[3][1]))
+                return hits
+
+            recv_local, arg_local = ref_target(t[3][0]), ref_target(t[3][1])
+            if not recv_local or not arg_local:
+                continue
+            srcs = [h for h in local_from_call(arg_local) if h]
+            direct = [h for h in srcs if h[1].endswith("fee_for_output")]
+            if not direct or len(srcs) != len(direct):
+                continue  # the added operand is not (only) the fee of an output
+            if not any(h and h[0] == c.bb for h in local_from_call(recv_local)):
+                continue  # not an in-place accumulator update (a tentative `let new = fee.checked_add(..)` is judged where it is set)
+            direct = ["call:fee_for_output@%d" % h[0] for h in direct]
+            n_pair += 1
+            rep.inst("FEE-pair")
+            seen = set()
+            work = [s_ for s_ in F.succ(fn, c.bb, with_unwind=False) if s_ is not None]
+            bad = None
+            while work and bad is None:
+                b = work.pop()
+                if b in seen or fn["bbs"][b]["c"]:
+                    continue
+                seen.add(b)
+                if b in outs:
+                    continue
+                if b in succ_blocks:
+                    bad = b
+                    break
+                work += [s_ for s_ in F.succ(fn, b, with_unwind=False) if s_ is not None]
+            if bad is not None:
+                rep.violation("FEE-pair", "add_change_if_needed|%s" % "+".join(sorted(x.split("@")[0].rsplit("::", 1)[-1] for x in direct)), "add_change_if_needed adds the fee of an output (%s) and can then return success (%s) without creating any output: outputs + fee exceed inputs by that amount" % (facts.loc_str(t[0], fn), facts.loc_str(fn["bbs"][bad]["t"][0], fn)), {})
+        rep.floor("in-place fee increments paired with an output creation", 2, n_pair)
+    # ---- ACC: accumulators are accumulated, never overwritten, inside loops -------------------
+    import accumulators
+    accumulators.check(rep, F, ["TransactionBuilder::get_total_input", "TransactionBuilder::get_total_output", "TransactionBuilder::get_explicit_input", "TransactionBuilder::get_explicit_output",
+                               "TransactionBuilder::get_implicit_input", "TransactionBuilder::get_deposit", "TransactionBuilder::get_mint_as_values", "TxInputsBuilder::total_value",
+                               "WithdrawalsBuilder::get_total_withdrawals", "CertificatesBuilder::get_certificates_deposit", "CertificatesBuilder::get_certificates_refund",
+                               "VotingProposalBuilder::get_total_deposit", "TransactionBuilder::add_change_if_needed_with_optional_script_and_datum"], floor=12)
     return rep.finish(
         EXPLANATION,
         ["Value's PartialEq compares lovelace and every asset (treating absent and empty bundles alike) — its algebra is C14's concern",
